@@ -50,15 +50,17 @@ type awaiter struct {
 	ccFired   bool
 }
 
-func (x *awaiter) fired() bool { return x.cancelReq != 0 || x.errSent != nil || x.errClosed || x.ccFired }
+func (x *awaiter) fired() bool {
+	return x.cancelReq != 0 || x.errSent != nil || x.errClosed || x.ccFired
+}
 
 type world struct {
 	c    *core.Ctx
 	cont bool
 	// plain promise
-	p       *promise.Promise[int]
-	winner  *result
-	nTrue   int
+	p      *promise.Promise[int]
+	winner *result
+	nTrue  int
 	// container
 	pc    *promise.PromiseContainer[int]
 	hist  core.CellHistory // Val: *slot
@@ -68,8 +70,8 @@ type world struct {
 
 // slot is one thing that was put in the container: a promise (possibly nil) or a direct result.
 type slot struct {
-	p   *promise.Promise[int] // nil for SetPromise(nil) and for SetResult
-	res *result               // result once known (SetResult: at once; promise: when resolved)
+	p    *promise.Promise[int] // nil for SetPromise(nil) and for SetResult
+	res  *result               // result once known (SetResult: at once; promise: when resolved)
 	nilP bool
 }
 
